@@ -2057,3 +2057,7 @@ def _track_replay_without_status_test(src):
 
 M2("c17-every-recorded-operation-counts-as-completed", "C17", "R6.boundary-on-small-histories", [{"file": "state.py", "fn": _track_replay_without_status_test}],
    desc="mutscan 4: the status conjunct of the completed set dropped (used to end as exit 2: test not recognised)")
+M("c17-check-function-logger-built-on-a-logger", "C17", "R1.derived-logger-carries-the-execution-state", "operation/wait_for_condition.py",
+  "                        execution_state=self.state,\n                        op_id=self.operation_identifier,\n                        attempt=attempt,",
+  "                        execution_state=self.context_logger,\n                        op_id=self.operation_identifier,\n                        attempt=attempt,",
+  desc="mutscan 5: one attribute of self taken for another")
